@@ -383,6 +383,13 @@ package bbolt
 
 // ---------------------------------------------------------------- C16: batch
 
+//@ func safelyCall
+//@   returns (err)
+//@   props C16
+//@   invokes fn
+//@   ensures [called] invoked(fn)
+//@   ensures [result] err == cbresult(fn)
+
 //@ func (*batch).run$1
 //@   returns (err)
 //@   props C16
